@@ -45,7 +45,7 @@ func (a *vhListAPI) List(_ context.Context, list client.ObjectList, _ ...client.
 // order, optionally with one more namespace no pool refers to) and Reconcile runs again. After an
 // accepted load (handler answered Success or ReprocessAll, the latter is what controller.SetPools answers)
 // the second run must not call the handler nor force a re-sync of all Services; after a failed load it
-// must try again.
+// must try again. variant 2: the event is a Namespace gaining the label a pool's namespace selector asks for.
 func VerifPoolReconcile(variant int) {
 	res := vhSnapshot(4)
 	api := &vhListAPI{res: res}
@@ -55,6 +55,11 @@ func VerifPoolReconcile(variant int) {
 		Handler:     func(log.Logger, *config.Pools) SyncState { calls++; return outcome },
 		ForceReload: func() { reloads++ }}
 	req := ctrl.Request{NamespacedName: types.NamespacedName{Namespace: "metallb-system", Name: "pool-a"}}
+	if variant == 2 {
+		// the third pool serves the namespaces labelled tenant=gold; namespace team-a exists without the label
+		api.res.Pools[2].Spec.AllocateTo = &metallbv1beta1.ServiceAllocation{NamespaceSelectors: []metav1.LabelSelector{{MatchLabels: map[string]string{"tenant": "gold"}}}}
+		api.res.Namespaces = append(api.res.Namespaces, corev1.Namespace{ObjectMeta: metav1.ObjectMeta{Name: "team-a", Labels: map[string]string{}}})
+	}
 	_, err := r.Reconcile(context.Background(), req)
 	vr.Assert(calls == 1, "the first load did not reach the handler exactly once")
 	vr.Assert((err != nil) == (outcome == SyncStateError), "only a retryable handler error makes the reconciler ask for a retry")
@@ -66,6 +71,20 @@ func VerifPoolReconcile(variant int) {
 	}
 	accepted := outcome == SyncStateSuccess || outcome == SyncStateReprocessAll
 	outcome = SyncStateReprocessAll
+	if variant == 2 {
+		// the namespace gets the label: the pool now serves it. The event is the Namespace's (cluster
+		// scoped: the request carries no namespace); the new pool set must reach the handler and, as the
+		// handler asks for it, every Service must be re-synced (the waiting ones of team-a get their turn)
+		n := len(api.res.Namespaces) - 1
+		api.res.Namespaces[n].Labels = map[string]string{"tenant": "gold"}
+		before := reloads
+		_, err = r.Reconcile(context.Background(), ctrl.Request{NamespacedName: types.NamespacedName{Name: "team-a"}})
+		vr.Assert(err == nil, "reconcile of a Namespace event failed")
+		vr.Assert(calls == 2, "a Namespace change that alters which pools serve it did not reach the handler")
+		vr.Assert(reloads == before+1, "Services are not re-synced after a Namespace change altered the pools serving it")
+		vr.Reach("namespace change loaded")
+		return
+	}
 	_, _ = r.Reconcile(context.Background(), req)
 	if accepted {
 		vr.Assert(calls == 1 && reloads <= 1, "an event that leaves the configuration unchanged reached the handler again (reload and full re-sync of all Services)")
